@@ -304,6 +304,18 @@ func init() {
 			return fmt.Sprintf("%d,%d", a, b)
 		}))
 	}
+	// D: Decode∘Encode∘Decode of the caret fields of an hhea table (real code); the driver answers
+	// with the pair itself when it is in lowest terms (the round trip must be the identity)
+	ops["metrics.caretrt"] = func(f Fields) string {
+		return canonPanic(guard(func() string {
+			a, b := slopeOf(angleOf(f.Int("rise"), f.Int("run")))
+			a2, b2 := slopeOf(angleOf(a, b))
+			if a2 != a || b2 != b {
+				return fmt.Sprintf("unstable:%d,%d->%d,%d", a, b, a2, b2)
+			}
+			return fmt.Sprintf("%d,%d", a, b)
+		}))
+	}
 	// direct predicates on bytes produced by the real code: the expected value is fixed
 	ops["metrics.hheaderived"] = func(f Fields) string { return "ok" }
 	ops["metrics.dfont"] = func(f Fields) string { return "ok" }
@@ -733,22 +745,38 @@ func areaMetrics(c *Ctx) {
 		default:
 			rise, run = r.Range(-32768, 32767), r.Range(-32768, 32767)
 		}
-		if caretTie(rise, run) {
-			c.Stat("caret", "tie-skipped")
-			continue
+		caretCase(c, rise, run, "random")
+	}
+	// the extremes, systematically: one component at +-32767, +-32766, -32768 or +-1, the other
+	// sweeping 1..4096, both orientations (steep and flat), all sign combinations, in lowest terms or not
+	bigs := []int{32767, -32767, 32766, -32766, -32768}
+	sweep := 12
+	extra := 150
+	if c.Tier == "thorough" {
+		sweep = 64
+		extra = n / 3
+	}
+	for _, a := range bigs {
+		for b := 1; b <= sweep; b++ {
+			caretCase(c, a, b, "extreme-steep")
+			caretCase(c, a, -b, "extreme-steep")
+			caretCase(c, b, a, "extreme-flat")
+			caretCase(c, -b, a, "extreme-flat")
 		}
-		c.Case(Verdict, "metrics.caret", fmt.Sprintf("rise=%d run=%d", rise, run), true)
-		switch {
-		case run == 0 || run == -32768 && false:
-			c.Stat("caret", "vertical")
-		case rise == 0:
-			c.Stat("caret", "horizontal")
-		default:
-			if gcd(abs(rise), abs(run)) > 1 {
-				c.Stat("caret", "reducible")
-			} else {
-				c.Stat("caret", "lowest-terms")
-			}
+	}
+	for i := 0; i < extra; i++ {
+		a := Pick(r, []int{32767, -32767, 32766, -32766, -32768, 32765, 1, -1, 2})
+		b := r.Range(1, 4096)
+		if r.Chance(1, 5) {
+			b = r.Range(4097, 32767)
+		}
+		if r.Bool() {
+			b = -b
+		}
+		if r.Bool() {
+			caretCase(c, a, b, "extreme-steep")
+		} else {
+			caretCase(c, b, a, "extreme-flat")
 		}
 	}
 
@@ -909,6 +937,42 @@ func outClass(res string) string {
 	return res
 }
 
+// caretCase: V — fromAngle(toAngle(rise, run)) on the real code against the exact-arithmetic
+// model; D — for a pair in lowest terms Decode∘Encode∘Decode is the identity on the caret fields.
+func caretCase(c *Ctx, rise, run int, label string) {
+	if caretTie(rise, run) {
+		c.Stat("caret", "tie-skipped")
+		return
+	}
+	c.Case(Verdict, "metrics.caret", fmt.Sprintf("rise=%d run=%d", rise, run), true)
+	c.Stat("caret_gen", label)
+	cr, cu := rise, run
+	if cr == -32768 {
+		cr = -32767
+	}
+	if cu == -32768 {
+		cu = -32767
+	}
+	switch {
+	case cu == 0:
+		c.Stat("caret", "vertical")
+	case cr == 0:
+		c.Stat("caret", "horizontal")
+	case gcd(abs(cr), abs(cu)) > 1:
+		c.Stat("caret", "reducible")
+	default:
+		c.Stat("caret", "lowest-terms")
+	}
+	if abs(cr) == 32767 || abs(cu) == 32767 {
+		c.Stat("caret_extreme", "|component|=32767")
+	} else if abs(cr) == 32766 || abs(cu) == 32766 {
+		c.Stat("caret_extreme", "|component|=32766")
+	}
+	if rise != -32768 && run != -32768 && gcd(abs(rise), abs(run)) == 1 {
+		c.Case(Direct, "metrics.caretrt", fmt.Sprintf("rise=%d run=%d", rise, run), true)
+	}
+}
+
 func abs(x int) int {
 	if x < 0 {
 		return -x
@@ -1009,18 +1073,53 @@ func fontCase(c *Ctx, i int) {
 	}
 	if ncodes > 0 {
 		codes := map[int]glyph.ID{}
-		big := r.Chance(1, 4)
-		for len(codes) < ncodes {
-			cp := r.Range(1, 0xFFFF)
-			switch r.Intn(6) {
-			case 0:
-				cp = Pick(r, []int{0x20, 0xFFFF, 0xFFFE, 1})
-			case 1:
-				if big {
-					cp = r.Range(0x10000, 0x10FFFF)
+		mode := r.Intn(8)
+		add := func(cp int) { codes[cp] = glyph.ID(r.Range(1, g-1)) }
+		switch mode {
+		case 0: // only supplementary-plane characters
+			base := Pick(r, []int{0x1F600, 0x10000, 0x1F600, 0x20000, 0x10FFF0, r.Range(0x10000, 0x10FFFF-8)})
+			for k := 0; k < ncodes; k++ {
+				add(base + k)
+			}
+			c.Stat("font_codes", "only above U+FFFF")
+		case 1: // lowest code exactly 0xFFFF
+			add(0xFFFF)
+			for len(codes) < ncodes {
+				add(r.Range(0x10000, 0x10FFFF))
+			}
+			c.Stat("font_codes", "lowest = U+FFFF")
+		case 2: // lowest code exactly 0x10000
+			add(0x10000)
+			for len(codes) < ncodes {
+				add(r.Range(0x10001, 0x10FFFF))
+			}
+			c.Stat("font_codes", "lowest = U+10000")
+		case 3: // mixed
+			add(r.Range(1, 0xFFFE))
+			add(r.Range(0x10000, 0x10FFFF))
+			for len(codes) < ncodes {
+				if r.Bool() {
+					add(r.Range(1, 0xFFFF))
+				} else {
+					add(r.Range(0x10000, 0x10FFFF))
 				}
 			}
-			codes[cp] = glyph.ID(r.Range(1, g-1))
+			c.Stat("font_codes", "BMP and above")
+		case 4: // highest code exactly 0xFFFF / 0xFFFE
+			add(Pick(r, []int{0xFFFF, 0xFFFE}))
+			for len(codes) < ncodes {
+				add(r.Range(1, 0xFFFD))
+			}
+			c.Stat("font_codes", "highest = U+FFFF/FFFE")
+		default:
+			for len(codes) < ncodes {
+				cp := r.Range(1, 0xFFFF)
+				if r.Intn(6) == 0 {
+					cp = Pick(r, []int{0x20, 0xFFFF, 0xFFFE, 1})
+				}
+				add(cp)
+			}
+			c.Stat("font_codes", "BMP only")
 		}
 		first := true
 		for cp, gid := range codes {
